@@ -184,7 +184,7 @@ func ruleClusterID(c *Ctx) {
 	c.onlyCalledFrom(rule, initID, map[string]string{fnName(P.Method("server", "Server", "startServer")): "server start"})
 	// initClusterID prefers an existing key
 	get := F(P.Func("pkg/etcdutil", "EtcdKVGet"))
-	c.need(rule, initID, "call initOrGetClusterID", instrCallMatcher(F(fn)), []Ev{newOkEv(initID, "ok(EtcdKVGet)", callMatcher(get)), guardRel("no stored id", "==", lenOf(anyVal), isConstInt(0))}, all,
+	c.need(rule, initID, "call initOrGetClusterID", instrCallMatcher(F(fn)), []Ev{newOkEv(initID, "ok(EtcdKVGet)", callMatcher(get)), guardRel("no stored id", "== <=", lenOf(anyVal), isConstInt(0))}, all,
 		"a new id is generated only when reading the key succeeded and found nothing")
 }
 
